@@ -17,10 +17,10 @@ if [ $CONFIRM = 1 ]; then
   fi
 fi
 cd /verif
-B=$(mktemp -d /tmp/evb.XXXXXX); cp evidence/$ID.json $B/ 2>/dev/null
-LENA_REPO=$D timeout 3000 ./check $ID --tier $TIER > $B/out.txt 2>&1; RC=$?
-grep -E "VIOLATION|key:|MACHINERY|KNOWN-FINDING" $B/out.txt | head -6
+B=$(mktemp -d /tmp/evb.XXXXXX)
+VERIF_EVIDENCE_DIR=$B/ev LENA_REPO=$D timeout 3000 ./check $ID --tier $TIER > $B/out.txt 2>&1; RC=$?
+grep -E "VIOLATION|key:|MACHINERY" $B/out.txt | head -6; echo "known-finding lines: $(grep -c KNOWN-FINDING $B/out.txt)"
 tail -1 $B/out.txt
 echo "check exit: $RC"
-cp $B/$ID.json evidence/ 2>/dev/null
+# (evidence of this run was written to $B/ev, not to /verif/evidence)
 rm -rf $D $B
